@@ -39,6 +39,15 @@ pub fn run_history(t: &mut Tape, max_ops: u64, out: &mut CaseOut) {
             return;
         }
     };
+    // a clock may refuse adjustments (Clock methods return Result): scripted failures in a third of the histories
+    if t.chance(1, 3) {
+        let dense = t.bool();
+        for _ in 0..60 {
+            let f = if dense { t.chance(1, 2) } else { t.chance(1, 8) };
+            w.node.clock.borrow_mut().fail.push_back(f);
+        }
+        out.label("failing-clock");
+    }
     let nops = t.urange(1, max_ops);
     let mut states = std::collections::BTreeSet::new();
     let mut accepted = 0u32;
